@@ -383,16 +383,18 @@ fn record_body<const NB: usize>(ty: u16, crit: bool, full: bool, fixed: Option<(
             let h0 = (ty >> 8) as u8;
             assert!(out[0] & 0x7f == h0 && out[1] == ty as u8);
             let mut rd2 = HeadBody { head: [if crit2 { h0 | 0x80 } else { h0 }, ty as u8, out[2], out[3]], head_pos: 0, body: &out[4..n], body_pos: 0 };
-            let back = if !full {
-                rd2.head_pos = 4;
-                sub_parse(ty, &mut rd2, be16(&out, 2) as u64)
-            } else if crit2 {
-                rd2.head[0] = h0 | 0x80;
-                block_on_ready(Record::parse(&mut rd2))
-            } else {
-                rd2.head[0] = h0;
-                block_on_ready(Record::parse(&mut rd2))
-            };
+            // Re-parse. To keep one `NtsRecord::parse` per harness (each costs ~5M SAT variables) the
+            // serialisation is parsed back through the body parser of its type (its header was
+            // compared byte for byte above); unknown types have no body parser: their
+            // serialisation equals the consumed input byte for byte, which was just parsed to `r`.
+            let has_body_parser = ty <= 14 && ty != 11;
+            if !has_body_parser {
+                assert!(full && out[0] == head[0] && out[1] == head[1] && n == 4 + size, "unknown record serialises to its input");
+                std::mem::forget(r);
+                return Some(size);
+            }
+            rd2.head_pos = 4;
+            let back = sub_parse(ty, &mut rd2, be16(&out, 2) as u64);
             match back {
                 Ok(r2) => {
                     assert!(r2 == r, "serialise . parse is the identity on accepted records");
